@@ -476,7 +476,7 @@ def check_property(pid, tier="quick", seed=0, bounded_hooks=None, only=None, wri
     contracts = load_contracts()
     known = [k for k in load_known_findings() if k["property"] == pid]
     run = PropertyRun(pid, tier, seed)
-    timeout = 10 if tier == "quick" else 60
+    timeout = 20 if tier == "quick" else 90
     mine = [c for c in contracts.values() if pid in c.props and (only is None or only in c.key)]
     if not mine:
         run.say(f"CHECKER-FAULT property={pid}: no contracts")
